@@ -11,8 +11,10 @@ From RareV Require Import Proofs.TrimProof Proofs.TermEmu Proofs.TermMain Proofs
 Import ListNotations.
 
 (* Clause 1 (screen, close).  For every history of (line, text) updates whose texts are
-   well-formed and, as emitted, not wider than the terminal — any order, repeats, gaps, growing
-   and shrinking texts — every terminal width, both settings of ONLCR, both settings of AutoTrim
+   well-formed and, as emitted, not wider than the terminal (on a terminal with the DEC last-column
+   flag: narrower than the terminal, see C20_dec_margin_refuted) — any order, repeats, gaps, growing
+   and shrinking texts — every terminal width, both settings of ONLCR, both margin behaviours,
+   both settings of AutoTrim
    and every computedCols: feeding the bytes of New(); WriteForLine...; Close() to the reference
    terminal leaves it in the ground state with, on every row l (also rows never written and rows
    below the last line), exactly the visible runes of the text last written to line l — a longer
@@ -21,7 +23,8 @@ Import ListNotations.
 Theorem C20_screen_latest : forall (tc : tcfg) (c : cfg) (ups : list (nat * text)),
   (forall u, In u ups ->
      wf_text (snd u) = true /\
-     length (visible (write_line_no_wrap (autotrim c) (cols c) (snd u))) <= width tc) ->
+     length (visible (write_line_no_wrap (autotrim c) (cols c) (snd u))) + (if dec tc then 1 else 0)
+       <= width tc) ->
   exists sc, run tc (scr0, Ground) (tw_output c ups) = (sc, Ground) /\
     (forall l, nth l (rows sc) [] = visible (write_line_no_wrap (autotrim c) (cols c) (last_write l ups))) /\
     crow sc = S (max_line ups) /\ ccol sc = 0 /\ cvis sc = true /\ hides sc <= 1.
@@ -29,9 +32,10 @@ Proof. exact C20_screen_latest_proof. Qed.
 Print Assumptions C20_screen_latest.
 
 (* Clause 1 with AutoTrim on: no width hypothesis on the texts is needed — whatever their
-   length, well-formed texts never wrap on a terminal at least computedCols wide. *)
+   length, well-formed texts never wrap on a terminal at least computedCols wide (wider than
+   computedCols if the terminal has the DEC last-column flag). *)
 Theorem C20_screen_latest_trim : forall (tc : tcfg) (c : cfg) (ups : list (nat * text)),
-  autotrim c = true -> Z.to_nat (cols c) <= width tc ->
+  autotrim c = true -> Z.to_nat (cols c) + (if dec tc then 1 else 0) <= width tc ->
   (forall u, In u ups -> wf_text (snd u) = true) ->
   exists sc, run tc (scr0, Ground) (tw_output c ups) = (sc, Ground) /\
     (forall l, nth l (rows sc) [] = visible (trim (cols c) (last_write l ups))) /\
@@ -52,7 +56,8 @@ Print Assumptions C20_screen_latest_trim.
 Theorem C20_cursor_belief : forall (tc : tcfg) (c : cfg) (ups : list (nat * text)) (s : tw) (segs : list (list cmd)),
   (forall u, In u ups ->
      wf_text (snd u) = true /\
-     length (visible (write_line_no_wrap (autotrim c) (cols c) (snd u))) <= width tc) ->
+     length (visible (write_line_no_wrap (autotrim c) (cols c) (snd u))) + (if dec tc then 1 else 0)
+       <= width tc) ->
   tw_run c tw_new ups = (s, segs) ->
   exists sc, run tc (scr0, Ground) (render (concat segs)) = (sc, Ground) /\
     crow sc = tw_cursor s /\ tw_cursor s = last_line ups 0 /\
@@ -123,13 +128,8 @@ Theorem C20_sequences : forall (tc : tcfg) (cm : cmd) (s : scr),
   match cm with Text t => wf_text t = true | Up n => n = 1%N | _ => True end ->
   run tc (s, Ground) (render_cmd cm) = (interp tc s cm, Ground).
 Proof. exact run_render_cmd. Qed.
-Theorem C20_sequences_literal :
-  EscapePrefix ++ HideCursorBody = [27;91;63;50;53;108]%N /\
-  EscapePrefix ++ ShowCursorBody = [27;91;63;50;53;104]%N /\
-  EscapePrefix ++ EraseEolBody = [27;91;48;75]%N /\
-  render_cmd (Up 1%N) = [27;91;49;65]%N /\
-  TrimSeqStart = 27%N /\ TrimSeqEnd = 109%N.
-Proof. vm_compute. repeat split. Qed.
+Theorem C20_trim_runes : TrimSeqStart = 27%N /\ TrimSeqEnd = 109%N.
+Proof. vm_compute. split; reflexivity. Qed.
 Print Assumptions C20_sequences.
 
 (* the boolean form used on the implementation's output accepts what the model's BufferedTerm prints *)
@@ -138,13 +138,36 @@ Theorem C20_check_buffered_ok : forall (c : cfg) (ups : list (nat * text)) (out 
 Proof. exact C20_check_buffered_sound. Qed.
 Print Assumptions C20_check_buffered_ok.
 
+(* Recorded finding C20-dec-margin (the full statement is false on DEC-style terminals; the
+   restriction to texts narrower than the terminal is C20_screen_latest with dec tc = true).
+   On a terminal with the last-column flag (VT100..., xterm), width 3 = computedCols 3, AutoTrim
+   on: the text abcd is cut to abc and fits, but the erase-to-end-of-line that follows is issued
+   with the cursor still ON the last column, so the screen shows ab. *)
+Theorem C20_dec_margin_refuted :
+  exists (tc : tcfg) (c : cfg) (ups : list (nat * text)),
+    dec tc = true /\ cols c = Z.of_nat (width tc) /\ autotrim c = true /\
+    (forall u, In u ups -> wf_text (snd u) = true /\
+       length (visible (write_line_no_wrap (autotrim c) (cols c) (snd u))) <= width tc) /\
+    nth 0 (rows (fst (run tc (scr0, Ground) (tw_output c ups)))) []
+      <> visible (write_line_no_wrap (autotrim c) (cols c) (last_write 0 ups)).
+Proof.
+  exists (mktc 3 false true), (mkcfg true 3), [(0, [97;98;99;100]%N)].
+  split; [reflexivity|]. split; [reflexivity|]. split; [reflexivity|]. split.
+  - intros u [<-|[]]. vm_compute. split; [reflexivity | repeat constructor].
+  - vm_compute. discriminate.
+Qed.
+Print Assumptions C20_dec_margin_refuted.
+
 (* non-vacuity: width 3, trim on; line 2 is written with a coloured 4-cell text (cut to 3 cells,
    inside no sequence), line 0 is rewritten with a shorter text, line 1 is never written *)
 Example C20_example :
   let ups := [(0, [72;105;33]%N); (2, [97;27;91;51;49;109;98;99;100]%N); (0, [88]%N)] in
   forallb (fun u => wf_text (snd u)) ups = true /\
-  fst (run (mktc 3 false) (scr0, Ground) (tw_output (mkcfg true 3) ups))
+  fst (run (mktc 3 false false) (scr0, Ground) (tw_output (mkcfg true 3) ups))
   = mkscr [[88]; []; [97;98;99]]%N 3 0 true 1 /\
-  C20_check_live (mktc 3 false) (mkcfg true 3) ups (map render (tw_session (mkcfg true 3) ups)) = true /\
-  fits (mktc 3 false) (mkcfg true 3) ups = true.
+  C20_check_live (mktc 3 false false) (mkcfg true 3) ups (map render (tw_session (mkcfg true 3) ups)) = true /\
+  fits (mktc 3 false false) (mkcfg true 3) ups = true /\
+  (* the same history on a 4-column terminal with the DEC last-column flag *)
+  fst (run (mktc 4 true true) (scr0, Ground) (tw_output (mkcfg true 3) ups))
+  = mkscr [[88]; []; [97;98;99]]%N 3 0 true 1.
 Proof. vm_compute. repeat split. Qed.
